@@ -16,7 +16,9 @@ fn viol(kind: &str, detail: Vec<(&str, String)>) -> String {
 }
 
 /// Decode with a visible prefix that grows by `step` (0 = all at once) whenever a call reports UnexpectedEof; the failed
-/// call is repeated.  `path`: 0 next_frame, 1 next_row, 2 read_row, 3 next_frame_info (skip every frame), 4 finish, 5 next_interlaced_row
+/// call is repeated.  `path`: 0 next_frame, 1 next_row, 2 read_row, 3 next_frame_info (skip every frame), 4 finish, 5 next_interlaced_row;
+/// 6 / 7 / 8: frames taken alternately by row calls (next_row / read_row / next_interlaced_row, until `None`) and by next_frame - the
+/// frame after a frame read row by row is requested with next_frame directly, without next_frame_info in between
 pub fn resumable(bytes: &[u8], cut: usize, step: usize, path: u32, sched: &[usize]) -> (String, Vec<String>) {
     let pr = PieceReader::new(bytes.to_vec(), sched);
     let vis = pr.visible.clone();
@@ -59,9 +61,12 @@ pub fn resumable(bytes: &[u8], cut: usize, step: usize, path: u32, sched: &[usiz
         let mut rows_hash: u64 = 7;
         let mut nrows = 0u64;
         let mut frame_buf: Vec<u8> = vec![];
+        let mixed = path >= 6;
+        let mut frame_turn = false;   // mixed paths: the next frame is taken by next_frame
+        let row_kind = match path { 6 => 1, 7 => 2, 8 => 5, p => p };
         loop {
             // one call of the chosen kind, repeated after UnexpectedEof
-            let r: Result<String, png::DecodingError> = match path {
+            let r: Result<String, png::DecodingError> = match if mixed && frame_turn { 0 } else { row_kind } {
                 0 => {
                     // the SAME buffer is offered again when the call is repeated after UnexpectedEof (rows already decoded stay in it)
                     if frame_buf.is_empty() {
@@ -110,6 +115,11 @@ pub fn resumable(bytes: &[u8], cut: usize, step: usize, path: u32, sched: &[usiz
                         rows_hash = 7;
                         nrows = 0;
                         frames += 1;
+                        if mixed {
+                            frame_turn = true;
+                            if frames > 40 { break; }
+                            continue;
+                        }
                         // advance to the next frame (if any) by the frame-info call, itself retried on EOF
                         loop {
                             match rd.next_frame_info() {
@@ -134,6 +144,7 @@ pub fn resumable(bytes: &[u8], cut: usize, step: usize, path: u32, sched: &[usiz
                     }
                     out.push_str(&format!(" | {}", s));
                     frames += 1;
+                    frame_turn = false;
                     if s == "X" || frames > 40 {
                         break;
                     }
@@ -203,7 +214,7 @@ pub fn run(a: &Args) {
     for (name, bytes) in &files {
         o.count("files");
         let big = bytes.len() > 5000;
-        for path in 0..6u32 {
+        for path in 0..9u32 {
             let (whole, _) = resumable(bytes, bytes.len(), 0, path, &[0]);
             if whole.contains("err:") && !whole.contains("PolledAfterEndOfImage") {
                 o.notes.push(format!("one-shot decode of generated file reported an error (path {}): {} {}", path, name, whole.chars().take(200).collect::<String>()));
